@@ -88,7 +88,8 @@ Print Assumptions C06_run_program_builds_step.
       -> findings table-column-compile-panic (ValueKind::Any inside a matrix kind) and empty-value-compile-panic
          (ValueKind::Empty) are panics of CompileConst / encode_value_kind on kinds outside cval: outside H1.
    H2 [size_ok]: every count/offset/length of the computed header fits its field (u32 counts, u64 offsets), i.e. the
-      file is smaller than the format can describe; [wf_nstep]: function ids are u64, operand counts u32;
+      file is smaller than the format can describe — implied by ONE bound, the file is shorter than 4 GiB
+      (C06_small_file_size_ok); [wf_nstep]: function ids are u64, operand counts u32;
       [wf_lenv]: feature words are u64, the crate version u16.
    H3 [plan_accepted R p final]: FUNCTION-ID RESOLUTION and the FACTORIES are abstract — a registry R says which ids
       have a factory (`known`) and whether the factory accepts (out, operands) (`factory_ok`); a factory either
@@ -284,3 +285,11 @@ Theorem C06_link_verdict_sound : forall (v : sx) (f i : lres) (pr : sx),
   (v_head v = "ok"%string \/ v_head v = "kf"%string) /\ (forall w, f <> LNo w) /\ (forall w, i <> LNo w).
 Proof. exact link_verdict_sound. Qed.
 Print Assumptions C06_link_verdict_sound.
+
+(* H2 discharged by ONE bound: the payload length the compiler computes (header + every section) is below 2^32, i.e. the
+   emitted file is shorter than 4 GiB; then every count fits its u32 and every offset / length its u64 *)
+From MechV Require Import Proofs.BytecodeLinkSizeP.
+Theorem C06_small_file_size_ok : forall (e : lenv) (P : list ninstr),
+  wf_lenv e = true -> (payload_len e P < 2 ^ 32)%N -> size_ok e P = true.
+Proof. exact small_file_size_ok. Qed.
+Print Assumptions C06_small_file_size_ok.
